@@ -21,8 +21,8 @@ WellFormed(r) == r.blx <= r.trx /\ r.bly <= r.try
 LimitKept(r, o0, s0, s1) ==
   WellFormed(r) => /\ (s1[1] = s0[1] \/ (r.blx - Tol <= o0[1] + s1[1] /\ o0[1] + s1[1] <= r.trx + Tol))
                    /\ (s1[2] = s0[2] \/ (r.bly - Tol <= o0[2] + s1[2] /\ o0[2] + s1[2] <= r.try + Tol))
-InReach(nbb, r, o0) == /\ nbb.xa + o0[1] >= r.blx /\ nbb.xi + o0[1] <= r.trx
-                       /\ nbb.ya + o0[2] >= r.bly /\ nbb.yi + o0[2] <= r.try
+InReach(nbb, r, o0) == \/ (nbb.xa + o0[1] >= r.blx /\ nbb.xi + o0[1] <= r.trx)
+                       \/ (nbb.ya + o0[2] >= r.bly /\ nbb.yi + o0[2] <= r.try)
 Clear(t, n) == IF n.sub = << >> THEN ~Overlap(t, OctOfSeq(n.bb), Tol)
                ELSE \A k \in 1..Len(n.sub) : ~Overlap(t, Meet(OctOfSeq(n.sub[k]), OctOfSeq(n.bb)), Tol)    \* the part of a sub-octabox inside the bounding octabox
 InDomain(rtl, r, o0) == rtl \/ (r.blx = -r.trx /\ (SkipLtrOffset => o0[1] = 0))
